@@ -97,6 +97,7 @@ def blank(t, spans):
     return ''.join(t)
 
 entries = []
+shapes = []
 def scan(text, ctx, macros, fname, depth=0):
     if depth > 6: raise SystemExit('macro expansion too deep')
     for m in re.finditer(r'\b(?:core::arch::)?asm!\s*\(', text):
@@ -113,6 +114,15 @@ def scan(text, ctx, macros, fname, depth=0):
         fns = re.findall(r'\bfn\s+(\w+)', text[:m.start()])
         fn = fns[-1] if fns else '?'
         entries.append((fname + '::' + fn + ctx, templates, operands, sorted(options)))
+        if fname == 'instructions/port.rs':
+            # the whole body of the function around the block, with the block itself replaced by ASM and
+            # white space removed: a port access function must consist of its asm! block and nothing else
+            fm = list(re.finditer(r'\bfn\s+\w+', text[:m.start()]))
+            if not fm: raise SystemExit('asm! outside a function in ' + fname)
+            bstart = text.index('{', fm[-1].end())
+            bend = match_paren(text, bstart, '{', '}')
+            body = text[bstart + 1:m.start()] + 'ASM' + text[end + 1:bend]
+            shapes.append((fname + '::' + fn + ctx, templates, re.sub(r'\s+', '', body)))
     for name, (params, body) in macros.items():
         for m in re.finditer(r'\b' + name + r'!\s*\(', text):
             end = match_paren(text, m.end() - 1, '(', ')')
@@ -136,6 +146,10 @@ lines = ['(* GENERATED by tools/asm_extract.py from the asm! blocks of /repo/src
          '(* (location, templates, operands, options) *)',
          'Definition asm_table : list (string * list string * list string * list string) := [']
 lines.append(';\n'.join('  (%s, %s, %s, %s)' % (q(e[0]), ql(e[1]), ql(e[2]), ql(e[3])) for e in entries))
+lines.append('].')
+lines += ['', '(* port access functions: (location, templates, body of the function with the asm! block replaced by ASM, white space removed) *)',
+          'Definition port_fn_shapes : list (string * list string * string) := [']
+lines.append(';\n'.join('  (%s, %s, %s)' % (q(e[0]), ql(e[1]), q(e[2])) for e in shapes))
 lines.append('].')
 new = '\n'.join(lines) + '\n'
 old = open(OUT).read() if os.path.exists(OUT) else None
